@@ -1,7 +1,7 @@
 """C01 — Kemeny score equals the generalized pairwise-penalty definition."""
 from itertools import product
 from hypothesis import strategies as st
-from vlib import gen, oracle, lib
+from vlib import gen, oracle, lib, mutate
 from vlib.harness import HypSub, EnumSub
 from vlib.lib import Violation
 
@@ -70,12 +70,13 @@ def score_cases(draw, tier):
     univ = oracle.universe(ds["rankings"])
     nf = draw(st.sampled_from([0, 0, 0, 1, 2]))
     cand = draw(gen.candidates(univ, foreign_for(univ, nf)))
-    return {"scheme": scheme, "dataset": ds, "cand": cand, "superset": nf > 0}
+    return {"scheme": scheme, "dataset": ds, "cand": cand, "superset": nf > 0,
+            "via_mutation": draw(mutate.via_strategy(ds["rankings"], p=5))}
 
 
 def check_score(case, ctx):
     # generation dominates the cost: the drawn scheme, then the base-16 'decoder' scheme (every count term weighs
-    # differently, so any miscount shows whatever the drawn penalties are) and the drawn scheme with B/T swapped roles
+    # differently, so any miscount shows whatever the drawn penalties are)
     check_score_one(case, ctx)
     if case.get("batched", True):
         c = dict(case)
@@ -85,10 +86,16 @@ def check_score(case, ctx):
 
 def check_score_one(case, ctx):
     scheme, rankings, cand = case["scheme"], case["dataset"]["rankings"], case["cand"]
-    d = lib.mk_dataset(rankings)
     s = lib.mk_scheme(scheme)
+    kc = lib.KemenyComputingFactory(s)
+
+    def warm(d0):
+        # the SAME factory scores the dataset before its in-place mutation (candidate: everything tied)
+        kc.get_kemeny_score(lib.mk_ranking([sorted({e.value for e in d0.universe} | {e for b in cand for e in b},
+                                                   key=str)]), d0)
+    d = mutate.build(rankings, case.get("via_mutation"), warm)
     c = lib.mk_ranking(cand)
-    got = lib.must(lib.KemenyComputingFactory(s).get_kemeny_score, c, d)
+    got = lib.must(kc.get_kemeny_score, c, d)
     inst = oracle.Instance(rankings, scheme)
     want = inst.score(cand)
     # labels / non-triviality
